@@ -285,6 +285,41 @@ package lintcmd
 //@   loop 1   invariant !worthReporting(ig.Checks, allowedAnalyzers, n)
 
 //@ prop C12
+// ---- "-matrix, which is defined as merging one run per build configuration": every non-blank
+// line of the matrix description is one build configuration -- also the last line when it is
+// not terminated by a newline ----
+// chunks(r): what successive ReadString('\n') calls return for the reader's content: the
+// newline-terminated lines and, if the content does not end in a newline, the rest; rdpos: how
+// many of them have been read
+//@ ghost chunks(r io.Reader) []string
+//@ axiom [chunks_len] forall r io.Reader :: {chunks(r)} len(chunks(r)) >= 0
+//@ immutable io.EOF
+//@ axiom [eof_nonnil] io.EOF != nil
+//@ ghostvar rdpos map[*bufio.Reader]int
+//@ ghost brSrc(br *bufio.Reader) io.Reader
+//@ extern bufio.NewReader(rd io.Reader) *bufio.Reader
+//@   modifies ghost.rdpos
+//@   ensures result != nil && brSrc(result) == rd && get(rdpos, result) == 0 && (forall b *bufio.Reader :: {b in rdpos} b != result ==> (b in rdpos) == (b in old(rdpos)) && rdpos[b] == old(rdpos)[b])
+// a chunk ends in the delimiter unless it is the last one; reading past the end yields ("", EOF);
+// the unterminated last chunk is returned TOGETHER WITH io.EOF (documented behaviour of ReadString)
+//@ ghost terminated(c string) bool
+//@ extern (*bufio.Reader).ReadString(delim byte) (line string, err error)
+//@   modifies ghost.rdpos
+//@   ensures  get(old(rdpos), recv) < len(chunks(brSrc(recv))) ==> line == chunks(brSrc(recv))[get(old(rdpos), recv)] && get(rdpos, recv) == get(old(rdpos), recv) + 1 && (err == nil) == terminated(line) && (err != nil ==> err == io.EOF && get(rdpos, recv) == len(chunks(brSrc(recv))))
+//@   ensures  get(old(rdpos), recv) >= len(chunks(brSrc(recv))) ==> line == "" && err == io.EOF && get(rdpos, recv) == get(old(rdpos), recv)
+//@ extern strings.TrimSpace(s string) string
+//@   pure
+//@ axiom [trim_empty] strings.TrimSpace("") == ""
+//@ ghost nConf(cs []string, n int) int = n <= 0 ? 0 : nConf(cs, n-1) + (strings.TrimSpace(cs[n-1]) != "" ? 1 : 0)
+//@ func parseBuildConfig
+//@   trusted
+//@ func parseBuildConfigs
+//@   nosafe   all
+//@   modifies heap, ghost.rdpos
+//@   ensures  [all] result1 == nil ==> len(result0) == nConf(chunks(r), len(chunks(r)))
+//@   loop 1   invariant [br]    br != nil && brSrc(br) == r && 0 <= get(rdpos, br) && get(rdpos, br) <= len(chunks(r))
+//@   loop 1   invariant [count] len(builds) == nConf(chunks(r), get(rdpos, br))
+
 // The de-duplication in printDiagnostics merges the build names of ADJACENT problems with the
 // same descriptor, so the sort order has to keep problems with equal descriptor adjacent: the
 // build name must be the least significant key (after position, message and category).
